@@ -2,7 +2,7 @@
    Statements only; proofs in Proofs/JoinQueryProofs.v (and Proofs/JoinsProofs.v for the schedule-independence).
    Model: Model/JoinQuery.v (relational reference rel_join, ON/WHERE conjuncts, LookupJoin) over the node models
    of Model/Joins.v.  A table read as a batch is [batch t]: insert-only records without event time, then close. *)
-From Octo Require Import Joins JoinQuery JoinsBase JoinsProofs JoinQueryProofs GenJoinProofs OuterJoinProofs OuterJoinProofs2 ChangelogLemmas.
+From Octo Require Import Joins JoinQuery JoinsBase JoinsProofs JoinQueryProofs GenJoinProofs OuterJoinProofs OuterJoinProofs2 JoinsDoneProofs ChangelogLemmas.
 
 (* INNER JOIN (parser.go: StreamJoin + Filter(ON); optimizer: equalities moved into the join key, the rest stays
    in the filter).  For every pair of tables, every key extraction kl/kr (none = the unoptimized plan, where
@@ -106,3 +106,35 @@ Theorem C02_outer_partial :
   phase st = Done /\ bag_eqb (records out) (map ins (rel_join 3 (all_hold [CEq 0 2]) 2 2 wq_left wq_right)) = true.
 Proof. exact outer_fixed_pads_null_keys. Qed.
 Print Assumptions C02_outer_partial.
+
+(* Batch inputs always run to completion (no panic, no error), so the `phase st = Done` hypotheses above hold for
+   every interleaving: the unconditional forms. *)
+Theorem C02_inner_total : forall kl kr nl, key_respects kl -> key_respects kr ->
+  forall residual L R sigma, pred_respects residual ->
+  interleave (batch L) (batch R) sigma -> (forall l, In l L -> length l = nl) ->
+  forall x, consolidate (filter (fun r => residual (vals r)) (records (concat (snd (sj_run_steps kl kr jinit sigma))))) x =
+            count_rows (rel_inner (fun y => key_pred kl kr nl y && residual y) L R) x.
+Proof.
+  intros kl kr nl Hkl Hkr residual L R sigma Hres Hil Ha.
+  assert (Hd : phase (fst (sj_run_steps kl kr jinit sigma)) = Done)
+    by exact (reaches_done (recv_stream kl kr true) true (recv_stream_ins_ok kl kr true) _ _ sigma Hil (good_batch L) (good_batch R)).
+  destruct (sj_run_steps kl kr jinit sigma) as [st os] eqn:E.
+  exact (inner_join_batch kl kr nl Hkl Hkr residual L R sigma st os Hres Hil Ha E Hd).
+Qed.
+Print Assumptions C02_inner_total.
+
+Theorem C02_outer_total : forall kl kr nl nr kind, key_respects kl -> key_respects kr ->
+  forall L R sigma,
+  interleave (batch L) (batch R) sigma ->
+  (forall l, In l L -> length l = nl) -> (forall r, In r R -> length r = nr) ->
+  forall x, consolidate (records (concat (snd (oj_run_steps kl kr ((kind =? 1) || (kind =? 3)) ((kind =? 2) || (kind =? 3)) nl nr jinit sigma)))) x =
+            count_rows (rel_join kind (key_pred kl kr nl) nl nr L R) x.
+Proof.
+  intros kl kr nl nr kind Hkl Hkr L R sigma Hil HL HR.
+  assert (Hd : phase (fst (oj_run_steps kl kr ((kind =? 1) || (kind =? 3)) ((kind =? 2) || (kind =? 3)) nl nr jinit sigma)) = Done)
+    by exact (reaches_done (recv_outer kl kr ((kind =? 1) || (kind =? 3)) ((kind =? 2) || (kind =? 3)) nl nr true) false
+                (recv_outer_ins_ok kl kr _ _ nl nr true) _ _ sigma Hil (good_batch L) (good_batch R)).
+  destruct (oj_run_steps kl kr _ _ nl nr jinit sigma) as [st os] eqn:E.
+  exact (outer_join_batch kl kr nl nr kind Hkl Hkr L R sigma st os Hil HL HR E Hd).
+Qed.
+Print Assumptions C02_outer_total.
